@@ -14,7 +14,7 @@ import (
 func init() {
 	register(&PropSpec{
 		ID:       "C17",
-		Patterns: []string{"./pkg/proxy", "./pkg/router", "./pkg/stream/http2"},
+		Patterns: []string{"./pkg/proxy", "./pkg/router", "./pkg/stream/http2", "./pkg/stream/http"},
 		Explanation: "(R1) header finalisation order: the route's parser runs before the virtual host's, which runs before the router-global one, for requests and responses; evaluateHeaders applies additions before removals and joins with ',' only when the formatter says append and a non-empty value exists; " +
 			"(R2) short-circuit: in chooseHost the direct-response and redirect arms reply with the rule's own status/body/code and return before any connection pool is looked at; (R3) retry only before the response starts: the retry decision precedes the store downstreamResponseStarted=true which precedes appendHeaders; a reset retries only when !downstreamResponseStarted; doRetry runs only from the Retry phase; " +
 			"(R4) budget: shouldRetry returns NoRetry when the remaining count is 0 and decrements it before any ShouldRetry answer; nothing else writes the budget after construction; (R5) a retry re-selects host and pool and builds a new upstream request from them before sending; " +
@@ -39,6 +39,8 @@ func runC17(c *Ctx) {
 	defer c17RewriteReachesH2Upstream(c)
 	c.Rule("C17.R11", "a scheme redirect drops the host's port exactly when it is the default port of the original scheme", 1)
 	defer c17RedirectPortTable(c, "pkg/proxy")
+	c.Rule("C17.R14", "the rewritten host becomes the Host of the HTTP/1.1 upstream request whenever it is set", 1)
+	defer c17HostRewriteReachesHTTP1Upstream(c)
 	c.Rule("C17.R13", "the route's retry policy fields are the configured ones, unadjusted", 4)
 	defer c17RetryPolicyVerbatim(c)
 	c.Rule("C17.R12", "retry decision table of doRetryCheck over (reset reason, retry_on, status readable)", 1)
